@@ -72,7 +72,7 @@ def one_run(ctx, drv, cfg, chooser, mode, info, trace_socket_py=False):
     probs = []
     bad = hc.oracle(r, cfg)
     rep = dict(cfg=cfg, mode="access", schedule=sched, line_schedule=r.line_sched, impl_accesses=r.labels(),
-               impl_outcome=ci, info=info)
+               impl_outcome=ci, info=info, payloads={str(m): hc.pay(m) for m in range(1, 13)})
     for kind, what in bad:
         probs.append(("oracle", kind, what))
         ctx.violation(f"{kind}: {what}", dict(rep, oracle=[list(b) for b in bad]), key=None)
@@ -98,7 +98,10 @@ def run(ctx):
                 "threenode, reinc = a later endpoint re-using a key, reconn = a (callback) receiver that stays connected while the sender disconnects, reconnects with the same socket id and sends again, lone = no peer, shared = two threads on one key), "
                 "<= 4 send/recv/recv-nonblocking ops between connect and optional disconnect; each is run on the real "
                 "hub under seeded random (pre-emption probability 0.03..0.7) and PCT-style (depth 2..5) line-level "
-                "schedules. A case = (configuration, executed access schedule); non-trivial if at least one message "
+                "schedules; message payloads include the empty string, \"0\" and whitespace. A second stream runs "
+                "ThreadBroadcastChannel endpoints (2-3 nodes all broadcasting, or one broadcast receiver polling 1-2 plain "
+                "peers) under the same scheduler, judged by the broadcast oracle only. "
+                "A case = (configuration, executed access schedule); non-trivial if at least one message "
                 "was sent and the schedule switched threads at least twice; distinct = distinct (configuration, "
                 "access schedule).")
     ctx.trusted += [
@@ -116,7 +119,9 @@ def run(ctx):
         "hub, even while disconnect holds the lock) is not modelled; WeakMethod targets are never garbage collected",
         "no wall-clock timeouts (timeout=None); sleep only yields; __del__-triggered disconnects are replaced by an "
         "explicit disconnect op; reset_socket_hub is not used while threads run",
-        "messages are distinct per configuration; payload content is irrelevant to the hub",
+        "messages are distinct per configuration; the model treats payloads as opaque numbers (the harness maps them "
+        "to strings incl. falsy ones and back)",
+        "broadcast-channel executions have no model counterpart: oracle on the implementation only",
     ]
     drv = hc.Driver(ctx)
     ctx.gen_obligation("extraction of Net/Hub.v and OCaml driver build", drv.ok, (drv.err or "")[-400:])
@@ -152,6 +157,10 @@ def run(ctx):
     # ---- corpus (old witnesses; the oracle must hold on them now)
     for f in sorted(glob.glob(os.path.join(CORPUS, "*.json"))):
         rec = json.load(open(f))
+        if rec.get("kind") == "bcast":
+            replay_bcast(ctx, rec, dict(corpus=os.path.basename(f)))
+            cov["corpus_replayed"] += 1
+            continue
         r, ci, m, probs, rep = replay_entry(ctx, drv, rec, dict(corpus=os.path.basename(f)))
         cov["corpus_replayed"] += 1
         account("corpus", rec["cfg"], r, ci, m, probs, rep)
@@ -160,7 +169,7 @@ def run(ctx):
     n_cfg = 110 if quick else 900
     n_sched = 24 if quick else 60
     max_states = 60000 if quick else 400000
-    t_budget = 95 if quick else 780
+    t_budget = 65 if quick else 580
     t_start = time.time()
     rng = ctx.rng
     for c in range(n_cfg):
@@ -222,6 +231,39 @@ def run(ctx):
                     mism.append((("model-outcome-not-reproduced", o, ci), rep))
         elif outs is not None:
             cov["model_outcomes_reproduced"] += sum(1 for o, _ in outs if hc.okey(o) in seen_outcomes)
+    # ---- broadcast channels over thread sockets (implementation + oracle only; no model counterpart)
+    n_bc = 16 if quick else 140
+    n_bs = 10 if quick else 36
+    cov["bcast_runs"] = 0
+    cov["bcast_shapes"] = {}
+    cov["bcast_blocked_runs"] = 0
+    t_bc = time.time()
+    for c in range(n_bc):
+        if time.time() - t_bc > (25 if quick else 150):
+            ctx.notes.append(f"broadcast time budget reached after {c} configurations")
+            break
+        shape, cfg = hc.gen_bcast(rng)
+        for s in range(n_bs):
+            if rng.random() < 0.6:
+                pp = rng.choice([0.03, 0.1, 0.3, 0.7])
+                ch, info = hs.random_chooser(rng, pp), dict(chooser="random", p=pp)
+            else:
+                d = rng.randint(2, 5)
+                ch, info = hs.pct_chooser(rng, len(cfg), d, 40 * len(cfg)), dict(chooser="pct", depth=d)
+            r = hc.run_impl_bc(cfg, ch)
+            cov["bcast_runs"] += 1
+            cov["bcast_shapes"][shape] = cov["bcast_shapes"].get(shape, 0) + 1
+            cov["bcast_blocked_runs"] += int("blocked" in r.status)
+            ctx.note_case(hash((json.dumps(cfg), tuple(r.line_sched))), nontrivial=bool(r.appended))
+            bad = hc.oracle_bcast(r, cfg)
+            if bad:
+                ctx.violation(f"{bad[0][0]}: {bad[0][1]}",
+                              dict(kind="bcast", cfg=cfg, payloads={str(m): hc.pay(m) for m in range(1, 13)},
+                                   mode="line", schedule=r.line_sched, impl_accesses=r.log,
+                                   results=[[list(z[:2]) for z in rr] for rr in r.results], status=r.status,
+                                   oracle=[list(b) for b in bad], info=dict(info, shape=shape)), key=None)
+            if len(ctx.samples) < 6 and s == 0 and c < 2:
+                ctx.samples.append(dict(bcast_cfg=cfg, results=[[z[1] for z in rr] for rr in r.results]))
     cov["traces_validated_against_impl"] = cov["runs"]
     cov["states"] = cov["explore_states"]
     cov["transitions"] = cov["explore_transitions"]
@@ -265,6 +307,18 @@ def run(ctx):
     ctx.finish()
 
 
+def replay_bcast(ctx, rec, info):
+    cfg = rec["cfg"]
+    r = hc.run_impl_bc(cfg, hs.list_chooser(rec["schedule"], then_round_robin=rec.get("then_round_robin", True)))
+    bad = hc.oracle_bcast(r, cfg)
+    if bad:
+        ctx.violation(f"{bad[0][0]}: {bad[0][1]}",
+                      dict(kind="bcast", cfg=cfg, mode="line", schedule=r.line_sched, impl_accesses=r.log,
+                           results=[[list(z[:2]) for z in rr] for rr in r.results], status=r.status,
+                           oracle=[list(b) for b in bad], info=info), key=None)
+    return r, bad
+
+
 def search(ctx, drv, reps):
     """The model no longer describes the code: look harder for a schedule on which the
     property itself fails (more schedules on the differing configurations, high pre-emption,
@@ -288,6 +342,11 @@ def search(ctx, drv, reps):
 def replay(ctx, path):
     rec = json.load(open(path))
     rec = rec.get("replay", rec)
+    if rec.get("kind") == "bcast":
+        r, bad = replay_bcast(ctx, rec, dict(replay=path))
+        print("replay: results", [[z[1] for z in rr] for rr in r.results], r.status)
+        print("replay: oracle", bad)
+        return ctx.finish()
     drv = hc.Driver(ctx)
     if not drv.ok:
         ctx.gen_obligation("extraction of Net/Hub.v and OCaml driver build", False, drv.err[-400:])
